@@ -542,3 +542,9 @@ func (w *World) oracleC02(s *Snap) {
 		w.violate("C02", "supply", "balances-do-not-sum-to-genesis-supply", n, "sum=%s supply=%s", total, supply)
 	}
 }
+
+func checksum4(body []byte) []byte {
+	h1 := sha256.Sum256(body)
+	h2 := sha256.Sum256(h1[:])
+	return h2[:4]
+}
